@@ -25,6 +25,9 @@ def make(outdir):
             "-subj", f"/CN=verif {ca} root", "-addext", "basicConstraints=critical,CA:TRUE", "-addext", "keyUsage=critical,keyCertSign,cRLSign"])
     sh(["openssl", "x509", "-in", o("ca1.pem"), "-outform", "DER", "-out", o("ca1.der")])
     sh(["openssl", "x509", "-in", o("ca2.pem"), "-outform", "DER", "-out", o("ca2.der")])
+    # the same root as `openssl x509 -text` prints it: kilobytes of explanatory text in front of the PEM block (RFC 7468 allows it)
+    open(o("ca1.text.pem"), "w").write(sh(["openssl", "x509", "-in", o("ca1.pem"), "-text"]))
+    assert open(o("ca1.text.pem")).read().index("-----BEGIN ") > 1500
 
     def leaf(name, ca, san, startdate=None, enddate=None):
         sh(["openssl", "req", "-newkey", "rsa:2048", "-nodes", "-keyout", o(f"{name}.key"), "-out", o(f"{name}.csr"), "-subj", f"/CN={san}"])
